@@ -503,6 +503,9 @@ def run(ctx):
         impl.close()
     ctx.sample({"call": "List->permutations(a)", "a": "[1, 2, 3]", "check": "argument snapshot unchanged"})
     ctx.sample({"alias_program": progs[0][0][:300], "expected": progs[0][1][:200]})
+    # results of non-mutating operations are independent of their inputs (strings included); parameter defaults are per call
+    from harness import progcheck as _pc
+    _pc.run_templates(ctx, common.independence_cases(), "result-independence")
     common.replay_known(ctx)
 
 
